@@ -36,6 +36,10 @@ def gen_tag(rng, depth=0):
         f["tagger"] = None
     f["message"] = rng.choice([hx(b"msg\n"), hx(b""), hx(b"multi\n\nline\n"), hx(b"no newline")])
     f["signature"] = rng.choice(["NONE", "NONE", hx(PGP + b"\n"), hx(SSH + b"\n")])
+    if f["signature"] != "NONE" and unhx(f["message"]) and not unhx(f["message"]).endswith(b"\n"):
+        # a signature is one only at the beginning of a line (git's rule, and dulwich's since 7b00aac): glued to a message
+        # without a final LF the armor line is part of the message
+        f["message"] = hx(unhx(f["message"]) + b"\n")
     if depth and f["signature"] == "NONE" and not unhx(f["message"]).endswith(b"\n"):
         # a tag embedded as mergetag header: the header folding cannot represent a payload without a final LF
         f["message"] = hx(unhx(f["message"]) + b"\n")
@@ -261,6 +265,8 @@ def run(rep):
         full_t, bare_t = gen_tag(rng), gen_tag(rng)
         tz = gen_tz(rng)
         full_t.update(tagger=ident(rng), tag_time=gen_time(rng), tag_tz=tz[0], tag_neg=tz[1], signature=hx(PGP + b"\n"))
+        if unhx(full_t["message"]) and not unhx(full_t["message"]).endswith(b"\n"):
+            full_t["message"] = hx(unhx(full_t["message"]) + b"\n")      # (a signature starts a line: see gen_tag)
         bare_t.update(tagger=None, signature="NONE")
         for k2 in ("tag_time", "tag_tz", "tag_neg"):
             bare_t.pop(k2, None)
